@@ -117,13 +117,15 @@ def main():
             "add_only": True,
         },
         "engines": [
-            {"name": "E1 crosshair driver", "path": "engine/driver.py", "serves_properties": [c["property_id"] for c in checks],
-             "kind_free_text": E1},
-            {"name": "E2 direct z3 encodings", "path": "engine/fp_lemma.py", "serves_properties": ["C08"],
-             "kind_free_text": "SMT queries built with z3 from artefacts regenerated from /repo's source on each run"},
+            {"name": "E1 CrossHair driver", "path": "engine/driver.py", "serves_properties": [c["property_id"] for c in checks if c["property_id"] not in ("C06", "C15")] + ["C06"],
+             "kind_free_text": E1 + "; harness functions in harness/cXX_*.py; obligations are partitions run as separate processes; vacuity twin per obligation; step budget via sys.monitoring (engine/stepbudget.py)"},
+            {"name": "E2a/E2b z3 regular-expression encodings", "path": "engine/smt_regex.py", "serves_properties": ["C06", "C15"],
+             "kind_free_text": "compiled ContentMatch automata read through the public API and unrolled over a z3 string vs an independently parsed z3 regular expression; existence queries for fillers and wrapper chains; built from /repo's current source on every run"},
+            {"name": "E2c floating-point lemma", "path": "engine/fp_lemma.py", "serves_properties": ["C08"],
+             "kind_free_text": "AST of make_recover/recover_index/recover_offset in /repo's map.py translated to QF_BVFP terms; z3 shows them equal to the integer models used during symbolic runs"},
         ],
         "checks": checks,
-        "notes": "Solver-based checking of the real code. See DESIGN.md. known_findings.json lists fixed defects (regression inputs).",
+        "notes": "Solver-based checking of the real code (CrossHair 0.0.110 + z3 5.1; direct z3 encodings for C06/C15/C08-lemma). DESIGN.md sections 10-11 describe the system as built. known_findings.json: 19 fix: commits in /repo recorded as fixed entries (their counterexamples are replayed on every run) and three open findings (C18 fitter escape in table-like schemas, C12 drop_point in the strict schema, C08 mirror round trip on adjacent ranges - thorough tier). seeded/ holds 40 confirmed breaking changes written by sub-agents, all caught by the current checks (tools/try_seeded.sh). Verdicts are bounded: see each evidence file's bounds and assumptions.",
         "not_applicable": na + extra_na,
     }
     json.dump(man, open(os.path.join(ROOT, "MANIFEST.json"), "w"), indent=1)
